@@ -764,6 +764,12 @@ where
     }
 
     #[inline]
+    #[allow(deprecated)]
+    fn drop_span(&self, id: span::Id) {
+        self.as_ref().drop_span(id)
+    }
+
+    #[inline]
     fn try_close(&self, id: span::Id) -> bool {
         self.as_ref().try_close(id)
     }
@@ -845,6 +851,12 @@ where
     #[inline]
     fn clone_span(&self, id: &span::Id) -> span::Id {
         self.as_ref().clone_span(id)
+    }
+
+    #[inline]
+    #[allow(deprecated)]
+    fn drop_span(&self, id: span::Id) {
+        self.as_ref().drop_span(id)
     }
 
     #[inline]
